@@ -583,7 +583,23 @@ pub fn run(tier: Tier) -> i32 {
             samples.extend(model.samples.take().into_iter().rev().take(2));
         }
     }
+    // engine cross-check on the first configuration: the merging BFS and an unmerged enumeration of every
+    // history must reach the same number of distinct states
+    let crosscheck = {
+        let (cfg, _) = configs(tier).into_iter().next().unwrap();
+        let quiet = Ctx::new("C08", tier, "model_checking");
+        let model = Model::new(&quiet, cfg, "C08-crosscheck", false);
+        let depth = 3;
+        let bfs = explore(&quiet, &model, depth);
+        let (histories, distinct) = crate::engines::bfs::enumerate_unmerged(&model, depth);
+        if distinct != bfs.states {
+            eprintln!("MACHINERY-ERROR: BFS with state merging reports {} states at depth {depth}, unmerged enumeration of {histories} histories reaches {distinct} distinct states", bfs.states);
+            std::process::exit(2);
+        }
+        json!({"depth": depth, "histories_enumerated_without_merging": histories, "distinct_states": distinct, "bfs_states": bfs.states, "agree": true})
+    };
     let mut cov = Coverage::new();
+    cov.set("engine_crosscheck", crosscheck);
     cov.set("states", json!(states))
         .set("transitions", json!(transitions))
         .set("traces_validated_against_impl", json!(transitions))
